@@ -286,6 +286,7 @@ type l1Cfg struct {
 	UeIPAlloc bool   `json:"ueip_alloc"`
 	Pool      string `json:"pool"`
 	EndMarker bool   `json:"end_marker"`
+	HbTimer   bool   `json:"hb_timer"` // heartbeat monitor enabled (interval one hour: it never fires inside a history)
 	AccessIP  string `json:"access_ip"`
 	CoreIP    string `json:"core_ip"`
 	N4Addr    string `json:"n4addr"`
@@ -357,6 +358,8 @@ func (w *l1World) boot() error {
 		maxReqRetries:    5,
 		respTimeout:      2 * time.Second,
 		readTimeout:      15 * time.Second,
+		enableHBTimer:    cfg.HbTimer,
+		hbInterval:       time.Hour,
 	}
 	if cfg.UeIPAlloc {
 		p, err := NewIPPool(cfg.Pool)
